@@ -205,11 +205,16 @@ def execute(case, ctx):
     biggest = [B]      # once a bypass happened, same-length derivatives of the oversized container are consequences
 
     def hook(node, v, rec):
-        if isinstance(v, (list, dict)) and len(v) > B and id(v) not in seen_big:
-            seen_big[id(v)] = v
-            if len(v) > biggest[0]:
-                biggest[0] = len(v)
-                rec.findings.append((_site(node), len(v)))
+        if isinstance(v, (list, dict)) and len(v) > biggest[0]:
+            # a read of an existing (already grown) container is not a producer: only fresh objects are flagged here,
+            # in-place growth of existing ones is found by the scan after the call and attributed to the statement
+            existing = {}
+            for o in W.names.values():
+                canon.reachable_mutables(o, existing)
+            if id(v) in existing:
+                return
+            biggest[0] = len(v)
+            rec.findings.append((_site(node), len(v)))
 
     for step, op in enumerate(case['ops']):
         ctx.step = step
@@ -236,11 +241,9 @@ def execute(case, ctx):
         new_big = []
         for rt in roots:
             for o in canon.reachable_mutables(rt).values():
-                if len(o) > B and id(o) not in seen_big:
-                    seen_big[id(o)] = o
-                    if len(o) > biggest[0]:
-                        biggest[0] = len(o)
-                        new_big.append(o)
+                if len(o) > biggest[0]:
+                    biggest[0] = len(o)
+                    new_big.append(o)
         if new_big:
             st = prog[0]
             if st == 'block':
